@@ -58,17 +58,21 @@ def _cpow(ctx, cx, cy, l):
 
 def _setup(ctx, N, F, cell, ppp, topo, weighted, wsign=False):
     ru = ctx.repo("PyMatterSim.reader.reader_utils")
-    rows = C.make_cell(ctx, 2, cell)
+    # `cell` may be a list with one cell per frame (same edge lengths, different tilt: a sheared box)
+    rows_f = [C.make_cell(ctx, 2, c) for c in (cell if isinstance(cell, (list, tuple)) else [cell] * F)]
+    rows = rows_f[0]
     poss, snaps = [], []
     for f in range(F):
         prow = [[ctx.real(f"p{f}_{i}_{a}") for a in range(2)] for i in range(N)]
         poss.append(prow)
-        snaps.append(C.snapshot(ctx, ru, 10 * (f + 1), [1] * N, C.farr(ctx, prow), rows))
+        snaps.append(C.snapshot(ctx, ru, 10 * (f + 1), [1] * N, C.farr(ctx, prow), rows_f[f]))
     S = ru.Snapshots(nsnapshots=F, snapshots=snaps)
     W = None
     if weighted:
         W = [[[ctx.real(f"w{f}_{i}_{k}", positive=not wsign) for k in range(len(topo[i]))] for i in range(N)] for f in range(F)]
     nb, wf = _files(ctx, F, topo, W)
+    if isinstance(cell, (list, tuple)):
+        rows = rows_f          # per-frame cells: callers index rows[f]
     return ru, rows, poss, S, W, nb, wf
 
 
@@ -93,7 +97,8 @@ def h_psi(ctx, l, N, F, cell, ppp, topo, weighted=False, wsign=False):
     ctx.covers(*FUNCS[:2])
     boo = ctx.repo("PyMatterSim.static.boo")
     ru, rows, poss, S, W, nb, wf = _setup(ctx, N, F, cell, ppp, topo, weighted, wsign)
-    refs = [_reference_psi(ctx, l, rows, ppp, poss[f], topo, None if W is None else W[f]) for f in range(F)]
+    rows_of = (lambda f: rows[f]) if isinstance(cell, (list, tuple)) else (lambda f: rows)
+    refs = [_reference_psi(ctx, l, rows_of(f), ppp, poss[f], topo, None if W is None else W[f]) for f in range(F)]
     if W is not None and wsign:
         for f in range(F):
             for i in range(N):
@@ -113,7 +118,7 @@ def h_psi(ctx, l, N, F, cell, ppp, topo, weighted=False, wsign=False):
             # decided to be of modulus one), (ii) from |z_k| = 1 alone the weighted sum has modulus <= 1 (triangle inequality)
             us, prem = [], []
             for k, j in enumerate(topo[i]):
-                v = C.min_image(ctx, [poss[f][j][a] - poss[f][i][a] for a in range(2)], rows, ppp)
+                v = C.min_image(ctx, [poss[f][j][a] - poss[f][i][a] for a in range(2)], rows_of(f), ppp)
                 cx, cy = _unit(ctx, v[0], v[1])
                 a, b = _cpow(ctx, cx, cy, l)
                 ctx.oblige(f"unit bond phase[{f},{i},{k}]", O.eq(a * a + b * b, 1))
@@ -287,6 +292,8 @@ def cfg_psi(tier, seed):
         out.append(dict(l=l, N=3, F=1, cell="o", ppp=[0, 0], topo=TOPO3, weighted=True, wsign=True))
         out.append(dict(l=l, N=3, F=2, cell="o", ppp=[1, 1], topo=[[1], [2], [0]]))
     out.append(dict(l=6, N=3, F=1, cell="t-", ppp=[1, 1], topo=[[1], [2], [0]], weighted=True))
+    # sheared box: same edge lengths (3, 5/2 ... see CELLS2), tilt changes from frame to frame
+    out.append(dict(l=4, N=3, F=2, cell=["t-", "t-s"], ppp=[1, 1], topo=[[1], [2], [0]]))
     return out
 
 
